@@ -63,6 +63,10 @@ def spec_sites(case, upto=None):
             blocks.append(leave(cur) if cur else [])
             modes.append(None)
             break
+        if t[0] == "fms":           # FMS attached / detached between two passes: nothing runs
+            blocks.append([])
+            modes.append(None)
+            continue
         if cur is not None and stays(cur, t):
             blocks.append(it(cur))
         else:
@@ -73,10 +77,22 @@ def spec_sites(case, upto=None):
     return blocks, modes
 
 
+def site_fms(case):
+    """The FMS state in force at every call of the specified sequence (python mirror of Robot.Mixed.spec_fms)."""
+    blocks, _ = spec_sites(case)
+    v = bool(case["fms"])
+    flags = [v] * len(blocks[0])
+    for t, b in zip(case["ticks"], blocks[1:]):
+        if t != "end" and t[0] == "fms":
+            v = bool(t[1])
+        flags += [v] * len(b)
+    return flags
+
+
 def gen_case(r, pid=None):
     ncomp = r.choice([0, 1, 1, 2, 2, 3, 3, 4])
     comps = [dict(has_setup=r.random() < 0.7, has_enable=r.random() < 0.75, has_disable=r.random() < 0.75,
-                  inherit=r.random() < 0.4, redeclare=r.random() < 0.5) for _ in range(ncomp)]
+                  inherit=r.random() < 0.4, redeclare=r.random() < 0.5, preassign=r.random() < 0.3) for _ in range(ncomp)]
     nfb_robot = r.choice([0, 0, 1, 2])
     fb_owners = [-1] * nfb_robot
     for i in range(ncomp):
@@ -87,7 +103,7 @@ def gen_case(r, pid=None):
         for a in range(nattr):
             if r.random() < 0.5:
                 marked["%d,%d" % (i, a)] = r.choice([0, 1, 7, -3, 50])
-    fms = r.random() < (0.7 if pid in ("C07", "C10", "C11") else 0.5)
+    fms = r.random() < 0.7
     # ticks
     ticks = []
     words = [(0, 0, 0), (1, 0, 0), (1, 1, 0), (1, 0, 1), (0, 1, 0), (0, 0, 1), (0, 1, 1), (1, 1, 1)]
@@ -98,8 +114,21 @@ def gen_case(r, pid=None):
         dwell = r.choice([1, 1, 2, 2, 3, 4, 6])
         ticks += [list(w)] * dwell
     ticks = ticks[:L]
+    # the FMS gets attached / detached while the robot runs (never as the first tick, which is the
+    # word the robot starts with, and never right before "end": endCompetition() does not refresh
+    # the control word)
+    nchg = 0
+    if len(ticks) >= 3 and r.random() < {"C07": 0.6}.get(pid, 0.3):
+        cur_f = fms
+        for pos in sorted(set(r.randrange(1, len(ticks)) for _ in range(r.choice([1, 1, 2, 3])))):
+            cur_f = (not cur_f) if r.random() < 0.85 else cur_f
+            ticks.insert(pos + nchg, ["fms", int(cur_f)])
+            nchg += 1
     if r.random() < 0.6:
-        ticks = ticks[:r.randrange(1, len(ticks) + 1)] + ["end"]
+        cut = r.randrange(1, len(ticks) + 1)
+        while cut > 1 and ticks[cut - 1][0] == "fms":
+            cut -= 1
+        ticks = ticks[:cut] + ["end"]
     case = dict(ncomp=ncomp, comps=comps, fb_owners=fb_owners, teleop_in_auto=r.random() < 0.4,
                 has_auto=r.random() < 0.7, fms=fms, nattr=nattr, marked=marked,
                 robot_split=(r.randrange(0, ncomp + 1) if ncomp and r.random() < 0.3 else 0),
@@ -121,7 +150,7 @@ def gen_case(r, pid=None):
                 groups.setdefault(key, []).append(k)
             k += 1
     x = r.random()
-    pfault = {"C07": 0.85, "C10": 0.5, "C11": 0.5}.get(pid, 0.35)
+    pfault = {"C07": 0.85}.get(pid, 0.7)
     if cand and x < pfault:
         style = r.random()
         gkeys = sorted(groups, key=repr)
@@ -190,13 +219,16 @@ def coq_event(e):
         return "EvExec %s %s" % (coq_nat(e[1]), coq_list([coq_list([coq_Z(v) for v in row]) for row in e[2]]))
     if e[0] == "rp":
         m = "None" if e[1] is None else ("(Some %s)" % NT_MODE[e[1]] if e[1] in NT_MODE else "(Some Disabled)")
-        return "EvRP %s %s" % (m, coq_list([coq_opt(v, coq_Z) for v in e[2]]))
+        return "EvRP %s %s %s" % (m, coq_list([coq_opt(v, coq_Z) for v in e[2]]),
+                                  coq_list([coq_list([coq_Z(v) for v in row]) for row in e[4]]))
     raise ValueError(e)
 
 
 def coq_tick(t):
     if t == "end":
         return "End"
+    if t[0] == "fms":
+        return "Fms %s" % coq_bool(t[1])
     return "Tick %s %s %s" % tuple(coq_bool(x) for x in t)
 
 
@@ -267,21 +299,28 @@ def oracle(case, out):
     blocks, modes = spec_sites(case)
     flat = [s for b in blocks for s in b]
     raises = sorted(case["raises"])
-    fms = case["fms"]
+    flags = site_fms(case)
+    fms = all(flags[k] for k in raises if k < len(flat))       # every fault happens with the FMS attached
     n = case["ncomp"]
     nfb = len(case["fb_owners"])
-    first_raise = next((k for k in raises if k < len(flat)), None)
+    # the first fault that happens while the FMS is not attached is the last callback of the run
+    first_raise = next((k for k in raises if k < len(flat) and not flags[k]), None)
     # ---- C07 / C05: the call sequence
-    if fms or first_raise is None:
+    if first_raise is None:
         if out["crashed"]:
             culprit = sites[-1] if sites else None
-            v.append(("C07", "the robot program died with %r after %s (FMS attached=%s, faults at invocations %r)" % (
-                out["exc"], culprit, fms, raises)))
+            msg = "the robot program died with %r after %s (FMS attached at every fault; faults at invocations %r, FMS changes %r)" % (
+                out["exc"], culprit, raises, [t for t in case["ticks"] if t != "end" and t[0] == "fms"])
+            v.append(("C07", msg))
+            if not any("scripted fault" in (x or "") for x in (out.get("exc") or [])):
+                # not one of the scripted user faults: the framework itself failed while doing its job
+                kind = (culprit or [""])[0]
+                v.append(("C11" if kind == "Feedback" else "C05", msg))
         expect = flat
     else:
         expect = flat[:first_raise + 1]
         if not out["crashed"]:
-            v.append(("C07", "FMS not attached: the fault at invocation %d (%s) did not propagate out of the robot program" % (
+            v.append(("C07", "FMS not attached at that moment: the fault at invocation %d (%s) did not propagate out of the robot program" % (
                 first_raise, flat[first_raise])))
     if sites != expect:
         i = next((i for i in range(min(len(sites), len(expect))) if sites[i] != expect[i]), min(len(sites), len(expect)))
@@ -292,7 +331,7 @@ def oracle(case, out):
         kinds = {(got or [""])[0], (want or [""])[0]}
         if kinds & {"Setup", "OnEnable", "OnDisable"}:
             pid = "C06"
-        if (fms and raises and i > min(raises)) or (not fms and first_raise is not None):
+        if (raises and i > min(raises)) or first_raise is not None:
             pid = "C07"
         if "Feedback" in kinds and pid == "C05":
             pid = "C11"
@@ -302,6 +341,9 @@ def oracle(case, out):
     seen_other = False
     for e in sites:
         if e[0] == "Setup":
+            if e[1] >= 1000:
+                v.append(("C06", "setup() of component %d ran before every component existed and had its injected variables, "
+                                 "will_reset_to defaults and tunables" % (e[1] - 1000)))
             if seen_other:
                 v.append(("C06", "setup() of component %d after another callback" % e[1]))
         else:
@@ -344,6 +386,19 @@ def oracle(case, out):
             if prev_tick_t is not None and e[3] - prev_tick_t != P_US:
                 v.append(("C05", "robotPeriodic #%d at FPGA %d us, previous at %d us: not one iteration per %d us" % (rpi, e[3], prev_tick_t, P_US)))
             prev_tick_t = e[3]
+    # ---- C11: every getter exactly once per pass, in every mode (passes that completed)
+    marks_ = out.get("marks") or []
+    start_ = 0
+    for ti, end_ in enumerate(marks_):
+        mode_ = modes[ti + 1] if ti + 1 < len(modes) else None
+        seg = log[start_:min(end_, len(log))]
+        if mode_ is not None and any(e[0] == "rp" for e in seg):
+            for j in range(nfb):
+                cnt = sum(1 for e in seg if e[0] == "cb" and e[1] == "Feedback" and e[2] == j)
+                if cnt != 1:
+                    v.append(("C11", "pass %d (%s): feedback getter %d was called %d times, expected exactly once" % (ti, mode_, j, cnt)))
+                    break
+        start_ = end_
     # ---- C10: what every execute() sees: defaults + assignments since the end of the previous enabled pass
     if n and case["nattr"]:
         dflt = [[(case["marked"].get("%d,%d" % (i, a)) if case["marked"].get("%d,%d" % (i, a)) is not None else 0)
@@ -356,6 +411,11 @@ def oracle(case, out):
             mode = modes[ti + 1] if ti + 1 < len(modes) else None
             for idx in range(start, min(end, len(log))):
                 e = log[idx]
+                if e[0] == "rp" and e[4] != st:
+                    v.append(("C10", "pass %d (%s), robotPeriodic (callback #%d) sees %r, expected %r: the reset comes after "
+                                     "the feedbacks and robotPeriodic" % (ti, mode, idx, e[4], st)))
+                    done_c10 = True
+                    break
                 if e[0] == "exec" and e[2] != st:
                     v.append(("C10", "pass %d (%s), execute() of component %d (callback #%d) sees %r, expected %r: the defaults of the "
                                      "will_reset_to attributes plus what was assigned since the previous enabled pass ended"
@@ -426,7 +486,7 @@ def robot_check(ctx, pid):
         "user callbacks take no simulated time; HAL notifier / DriverStationSim / ntcore as exercised by the correspondence; "
         "the driver station word only changes while the loop is blocked in wait()" % pid)
     ctx.prove()
-    n = {"quick": 130, "thorough": 2600}[ctx.tier]
+    n = {"quick": 200, "thorough": 3000}[ctx.tier]
     r = ctx.rng
     cdir = os.path.join(CORPUS, pid)
     corpus = []
@@ -458,6 +518,11 @@ def robot_check(ctx, pid):
             continue
         pairs.append((c, o))
         ctx.count("fms" if c["fms"] else "no_fms")
+        nch = sum(1 for t in c["ticks"] if t != "end" and t[0] == "fms")
+        ctx.count("fms_changes=%s" % (nch if nch < 2 else ">=2"))
+        fl = site_fms(c)
+        if any(k < len(fl) and fl[k] for k in c["raises"]) and any(k < len(fl) and not fl[k] for k in c["raises"]):
+            ctx.count("faults both with and without the FMS in one run")
         ctx.count("faults=%s" % (len(c["raises"]) if len(c["raises"]) < 3 else ">=3"))
         ctx.count("components=%d" % c["ncomp"])
         ctx.count("crashed" if o["crashed"] else "survived")
